@@ -14,6 +14,7 @@ Do(ev) == CASE ev.op = "create" -> CreateBinding(ev.s, ev.p, ev.learn)
             [] ev.op = "clear" -> ClearSlot(ev.s)
             [] ev.op = "clearsub" -> ClearSlotSub(ev.s, ev.j)
             [] ev.op = "map" -> SetGainOffset(ev.s, ev.j, ev.gain, ev.offset)
+            [] ev.op = "path" -> SetSubPath(ev.s, ev.j, ev.p)
             [] ev.op = "set" -> SetSlot(ev.s, ev.v)
             [] ev.op = "cc" -> HandleCC(ev.c, ev.val)
             [] ev.op = "nrpn" -> HandleNrpn(ev.type, ev.val)
@@ -24,11 +25,13 @@ TSpec == TInit /\ [][TNext]_tvars
 \* log-scale parameter /l: 0.01 .. 100, observed values are scaled by 1000000 (so 10000 .. 100000000), tolerance 1e-5 relative
 LogOk(v) == v >= 9999 /\ v <= 100001000
 Mismatch(ev) ==
-  {k \in {"messages", "value", "log_range", "slots", "learn_rank", "queue_length", "ServedInOrder", "InRange", "QueueSane"} :
+  {k \in {"messages", "value", "log_range", "slots", "sub_automations", "learn_rank", "queue_length", "ServedInOrder", "InRange", "QueueSane"} :
    ~ CASE k = "messages" -> Len(ev.out) = Len(out) /\ \A i \in 1..Len(out) : ev.out[i].p = out[i].p /\ ev.out[i].ty = out[i].ty
        [] k = "value" -> Len(ev.out) = Len(out) => \A i \in 1..Len(out) : PInfo(out[i].p).log \/ ev.out[i].v = out[i].v
        [] k = "log_range" -> \A i \in 1..Len(ev.out) : (ev.out[i].p = "/l") => LogOk(ev.out[i].vlog)
        [] k = "slots" -> \A s \in Slots : ev.slots[s].used = slot[s].used /\ ev.slots[s].cc = slot[s].cc /\ ev.slots[s].nrpn = slot[s].nrpn
+       [] k = "sub_automations" -> \A s \in Slots, j \in Subs : ev.subs[s][j].used = sub[s][j].used /\ ev.subs[s][j].gain = sub[s][j].gain /\ ev.subs[s][j].offset = sub[s][j].offset
+                                                                /\ (sub[s][j].used => ev.subs[s][j].p = sub[s][j].p)
        [] k = "learn_rank" -> \A s \in Slots : ev.slots[s].rank = Rank(s)
        [] k = "queue_length" -> ev.qlen = Len(reqs)
        [] k = "ServedInOrder" -> ServedInOrder
